@@ -88,7 +88,7 @@ fn main() {
     let _guard = if lib == "tokio" { Some(support::tokio_rt().enter()) } else { None };
 
     let result = match scenario.as_str() {
-        "burst" | "mixed" | "lifecycle" | "fault" | "slowreply" | "nothread" | "chain" => actors::dispatch(&p, false),
+        "burst" | "mixed" | "lifecycle" | "fault" | "slowreply" | "nothread" | "chain" | "napdrop" => actors::dispatch(&p, false),
         "consume" => actors::dispatch(&p, true),
         "family" => {
             if chan != 0 {
